@@ -175,6 +175,12 @@ def body_rodded(env):
                 for s_ in range(2):
                     env.eq('%s: duct %d surface %d cell %d moves with the map' % (what, w, s_, c), r2.temp['duct_surf'][w, s_, p_d[c]],
                            r.temp['duct_surf'][w, s_, c], tol=1e-10, key='duct_not_equivariant')
+        # region-wide averages (the real properties): properties and correlated parameters are refreshed at these
+        for nm in ('avg_coolant_int_temp', 'avg_coolant_temp', 'avg_duct_mw_temp') + (('avg_coolant_byp_temp',) if nduct > 1 else ()):
+            v1, v2 = np.ravel(getattr(r, nm)), np.ravel(getattr(r2, nm))
+            for j in range(len(v1)):
+                env.eq('%s: %s[%d] (temperature at which properties are refreshed) is the same on both copies' % (what, nm, j), v2[j], v1[j],
+                       tol=1e-10, key='averages_not_invariant')
         # pin-adjacent coolant temperature and pin power handed to the pin model
         got = []
 
@@ -209,15 +215,22 @@ def body_sixnode(env):
         r2.temp = {kk: _permuted(v, p) for kk, v in r.temp.items()}
         r2.ebal = {kk: (v.copy() if hasattr(v, 'copy') else v) for kk, v in r.ebal.items()}
         r.ebal = {kk: (v.copy() if hasattr(v, 'copy') else v) for kk, v in r.ebal.items()}
-        for reg in (r, r2):
-            reg._update_coolant_params = lambda *a, **k_: None
-        env.stub('correlated-parameter update of the low-fidelity region is a no-op (same on both copies)')
+        seenT = {0: [], 1: []}
+        for w, reg in enumerate((r, r2)):
+            reg._update_coolant_params = (lambda T, *a, _w=w, **k_: seenT[_w].append(T))
+        env.stub('correlated-parameter update of the low-fidelity region replaced by a recorder of the temperature it is asked to '
+                 'evaluate properties at (claimed equal on both copies)')
         dz = env.pos('dz', hi=1)
         q = env.nonneg('q_refl', hi=1e6)
         t_gap = _vec(env, 'Tgap', 6, 200, 3000)
         h_gap = _vec(env, 'htc_gap', 6, 0, 1e7)
         r.calculate(dz, {'refl': q}, t_gap, h_gap, False, False)
         r2.calculate(dz, {'refl': q}, _permuted(t_gap, p), _permuted(h_gap, p), False, False)
+        env.holds('%s: properties and correlated parameters are refreshed as often on both copies' % what,
+                  len(seenT[0]) == len(seenT[1]) and len(seenT[0]) >= 1)
+        for j, (Ta, Tb) in enumerate(zip(seenT[0], seenT[1])):
+            env.eq('%s: temperature at which properties and correlated parameters are refreshed (call %d) is the same on both copies'
+                   % (what, j), Tb, Ta, tol=1e-10, key='sixnode_not_equivariant')
         for i in range(6):
             env.eq('%s: coolant node %d moves with the map' % (what, i), np.ravel(r2.temp['coolant_int'])[p[i]],
                    np.ravel(r.temp['coolant_int'])[i], tol=1e-10, key='sixnode_not_equivariant')
